@@ -18,6 +18,9 @@ Inductive case :=
 | Cm (thr : N) (batches : list (list flat)) (mem disk : list flat) (err : N)
     (* Current() before Close, Current() of the reopened manager, 0 = Verify and Open succeeded *)
 | Cc (thr : N) (batches : list (list flat)) (crashes : list (N * list (list flat * N)))
+| Cf (thr : N) (steps : list (list flat * N * N)) (mem disk : list flat) (err : N)
+    (* LogEdits calls on a vfs.FaultFS: per call the batch, the fault armed for it (one shot)
+       and whether the call returned an error; then Current(), Close, Verify + Open, Current() *)
 | Cr (thr : N) (batches1 batches2 : list (list flat)) (mem disk : list flat) (err : N).
     (* the last LogEdits of batches1 rewrites the manifest and the process dies after the new
        manifest and CURRENT.tmp are written but before the rename (orphan manifest file);
@@ -73,6 +76,17 @@ Definition check (c : case) : verdict :=
       let bs := unflat_batches batches in
       let m := log_all (create_new thr) bs in
       mk_verdict (negb (flats_eqb (vflat (m_ver m)) mem
+                        && match rr_flat (reload (m_fs m)) with Some f => flats_eqb f disk | None => false end))
+                 (negb (flats_eqb mem disk && (err =? 0)))
+                 0
+  | Cf thr steps mem disk err =>
+      let fault_of (n : N) : fault :=
+        match n with 1 => FAppendWrite | 2 => FCreate | 3 => FSnapWrite | 4 => FSnapSync
+                   | 5 => FTmpWrite | 6 => FRename | _ => FNone end in
+      let st := map (fun x => (map RunCodec.unflat_edit (fst (fst x)), fault_of (snd (fst x)))) steps in
+      let '(m, errs) := log_all_f (create_new thr) st in
+      let errs_ok := RunCodec.list_eqb Bool.eqb errs (map (fun x => negb (snd x =? 0)) steps) in
+      mk_verdict (negb (errs_ok && flats_eqb (vflat (m_ver m)) mem
                         && match rr_flat (reload (m_fs m)) with Some f => flats_eqb f disk | None => false end))
                  (negb (flats_eqb mem disk && (err =? 0)))
                  0
